@@ -58,9 +58,10 @@ func fullSnapshot(model nextroute.Model, s nextroute.Solution) []string {
 
 func fullCheck(id string, model nextroute.Model, sol nextroute.Solution) {
 	ctx := context.Background()
-	stopByID := map[string]nextroute.ModelStop{}
+	// an alternate stop listed by several vehicles has one model stop per vehicle, all with the same id
+	stopsByID := map[string][]nextroute.ModelStop{}
 	for _, ms := range model.Stops() {
-		stopByID[ms.ID()] = ms
+		stopsByID[ms.ID()] = append(stopsByID[ms.ID()], ms)
 	}
 	for _, verbosity := range []string{"low", "medium", "high"} {
 		work := sol.Copy()
@@ -89,16 +90,31 @@ func fullCheck(id string, model nextroute.Model, sol nextroute.Solution) {
 			if !pu.HasPlannableBestMove || len(pu.Stops) == 0 {
 				continue
 			}
-			ms, ok := stopByID[pu.Stops[0]]
-			if !ok || !ms.HasPlanStopsUnit() {
+			// the unit the report is about: a candidate per model stop with that id; "already planned" only if every candidate is
+			var ms nextroute.ModelStop
+			var mu nextroute.ModelPlanUnit
+			member, allPlanned, found := false, true, false
+			for _, cand := range stopsByID[pu.Stops[0]] {
+				if !cand.HasPlanStopsUnit() {
+					continue
+				}
+				var cu nextroute.ModelPlanUnit = cand.PlanStopsUnit()
+				_, cm := cand.PlanStopsUnit().PlanUnitsUnit()
+				if u, ok := cand.PlanStopsUnit().PlanUnitsUnit(); ok {
+					cu = u
+				}
+				if !found || !before.SolutionPlanUnit(cu).IsPlanned() {
+					ms, mu, member = cand, cu, cm
+				}
+				found = true
+				if !before.SolutionPlanUnit(cu).IsPlanned() {
+					allPlanned = false
+				}
+			}
+			if !found {
 				continue
 			}
-			var mu nextroute.ModelPlanUnit = ms.PlanStopsUnit()
-			_, member := ms.PlanStopsUnit().PlanUnitsUnit()
-			if u, ok := ms.PlanStopsUnit().PlanUnitsUnit(); ok {
-				mu = u
-			}
-			if before.SolutionPlanUnit(mu).IsPlanned() {
+			if allPlanned {
 				fmt.Fprintf(out, "%s checkdiff verbosity %s: has_plannable_best_move reported for unit [%s] which is already planned in the checked solution\n",
 					id, verbosity, strings.Join(pu.Stops, ","))
 				continue
